@@ -34,6 +34,7 @@ import (
 	"github.com/cloudwego/thriftgo/generator/golang/templates"
 	"github.com/cloudwego/thriftgo/parser"
 	"github.com/cloudwego/thriftgo/plugin"
+	"github.com/cloudwego/thriftgo/semantic"
 )
 
 // GoBackend generates go codes.
@@ -327,6 +328,21 @@ func (g *GoBackend) PostProcess(path string, content []byte) ([]byte, error) {
 }
 
 func (g *GoBackend) removeStreamingFunctions(ast *parser.Thrift) {
+	removed := false
+	defer func() {
+		if !removed {
+			return
+		}
+		// an include that was only referenced by a removed function must not
+		// be imported any more: compute the usage of the includes again
+		ast.Name2Category = nil
+		for _, inc := range ast.Includes {
+			inc.Used = nil
+		}
+		if err := semantic.ResolveSymbols(ast); err != nil && g.err == nil {
+			g.err = err
+		}
+	}()
 	for _, svc := range ast.Services {
 		functions := make([]*parser.Function, 0, len(svc.Functions))
 		for _, f := range svc.Functions {
@@ -338,6 +354,7 @@ func (g *GoBackend) removeStreamingFunctions(ast *parser.Thrift) {
 			if st.IsStreaming {
 				g.log.Warn(fmt.Sprintf("skip streaming function %s.%s: not supported by your kitex, "+
 					"please update your kitex tool to the latest version", svc.Name, f.Name))
+				removed = true
 				continue
 			}
 			functions = append(functions, f)
